@@ -360,7 +360,15 @@ pub fn caps_run() {
     let df = (choose(256) as u8, choose(32) as u8, choose(8) as u8);
     let mut f = PciFunc::new(0x1af4, 0x1041);
     // well-formed list: distinct 4-aligned offsets >= 0x40, in arbitrary order, terminated by 0
-    let n = choose(12) as usize;
+    // mostly short lists; sometimes long ones, up to every dword slot of the device-specific area
+    let n = match choose(8) {
+        0 => 12 + choose(37) as usize,
+        1 => 48,
+        _ => choose(12) as usize,
+    };
+    if n > 24 {
+        probe("capability_list_longer_than_24");
+    }
     let mut slots: Vec<u8> = (0..48u8).map(|i| 0x40 + 4 * i).collect();
     let mut offs = Vec::new();
     for _ in 0..n {
